@@ -88,6 +88,11 @@ class JokerSamples:
         valid_units["ln_posterior"] = u.one
         self._valid_units = valid_units
 
+        if t_ref is not None and not isinstance(t_ref, Time):
+            # a numeric reference time is a barycentric MJD, like the float times
+            # accepted by RVData
+            t_ref = Time(t_ref, format="mjd", scale="tcb")
+
         self.tbl.meta["t_ref"] = t_ref
         self.tbl.meta["poly_trend"] = poly_trend
         self.tbl.meta["n_offsets"] = n_offsets
